@@ -78,7 +78,7 @@ NameOfQ(q)       == NameQN(q.p, q.ns, q.l)
 
 (* bundle.valid_qualified_name(name): [q, M'] ; M is the store of all managers *)
 ResolveName(M, m, n) ==
-  CASE n.rep = "qn"   -> LET r == ResolveQNF(M[m], n.p, n.ns, n.l)
+  CASE n.rep = "qn"   -> LET r == ResolveQNF(M[m], AncTbl(M, m), n.p, n.ns, n.l)
                          IN [q |-> r.q, M |-> [M EXCEPT ![m] = r.st]]
     [] n.rep = "pl"   -> [q |-> ResolveStrF(M, m, StrPL(n.p, n.l)), M |-> M]
     [] n.rep = "bare" -> [q |-> ResolveStrF(M, m, StrBare(n.l)), M |-> M]
@@ -95,7 +95,7 @@ AutoConv(M, m, iv) ==
                         v |-> IF iv.T = "anyURI" THEN [t |-> "uri", u |-> iv.u]
                               ELSE [t |-> NativeT[iv.T], v |-> iv.v]]
     [] iv.t = "plit" -> [ok |-> TRUE, v |-> [t |-> "str", v |-> iv.v], M |-> M]
-    [] iv.t = "lit"  -> LET r == ResolveQNF(M[m], iv.dt.p, iv.dt.ns, iv.dt.l)   \* datatype re-homed
+    [] iv.t = "lit"  -> LET r == ResolveQNF(M[m], AncTbl(M, m), iv.dt.p, iv.dt.ns, iv.dt.l)   \* datatype re-homed
                         IN [ok |-> TRUE, v |-> [iv EXCEPT !.dt = r.q], M |-> [M EXCEPT ![m] = r.st]]
     [] OTHER         -> [ok |-> TRUE, v |-> iv, M |-> M]
 
